@@ -1,7 +1,7 @@
 (* Corr.v — comparison of model outputs with the implementation's observables,
    evaluated by vm_compute from generated case files (definitions only). *)
 From Coq Require Import ZArith List Bool Lia.
-From Dendro Require Import Base Tree Grid GridIso Criteria Compute Index Prune PruneGhost Newick IO DEq Cache Plot Moments Stats Catalog Flux Viewer.
+From Dendro Require Import Base Tree Grid GridIso AxisPerm Criteria Compute Index Prune PruneGhost Newick IO DEq Cache Plot Moments Stats Catalog Flux Viewer.
 Import ListNotations.
 Open Scope Z_scope.
 
@@ -171,7 +171,8 @@ Definition viewer_view (f : list tree) (views : list Z) (slice : Z) (es : list V
 (* ---- relabellings of the pixels (C16 / C17): the maps of GridIso.v against numpy's
    flip / roll / pad / swapaxes / expand_dims on an index array *)
 Inductive relab : Type :=
-| RFlip (a : nat) | RRoll (a : nat) (k : nat) | RPad (a : nat) (w w' : Z) | RSwap (a : nat) | RUnit (a : nat).
+| RFlip (a : nat) | RRoll (a : nat) (k : nat) | RPad (a : nat) (w w' : Z) | RSwap (a : nat) | RUnit (a : nat)
+| RSwaps (ks : list nat).
 
 Fixpoint set_nth (a : nat) (x : Z) (l : list Z) : list Z :=
   match a, l with
@@ -186,6 +187,7 @@ Definition relab_shape (shape : list Z) (r : relab) : list Z :=
   | RPad a w w' => set_nth a (nth a shape 0 + w + w') shape
   | RSwap a => swapped a shape
   | RUnit a => inserted a 1 shape
+  | RSwaps ks => swaps ks shape
   end.
 
 Definition relab_map (shape : list Z) (r : relab) : Z -> Z :=
@@ -195,6 +197,7 @@ Definition relab_map (shape : list Z) (r : relab) : Z -> Z :=
   | RPad a w w' => axis_map a shape (relab_shape shape r) (pad w)
   | RSwap a => swap_at a shape
   | RUnit _ => fun p => p
+  | RSwaps ks => swaps_map ks shape
   end.
 
 (* (shape, relabelling, new shape, new flat position of every pixel) *)
